@@ -155,18 +155,21 @@ type msg struct {
 }
 
 type scenario struct {
-	Conns      int    `json:"conns"`
-	Msgs       []msg  `json:"msgs"`
-	Disconnect bool   `json:"disconnect"` // agent drops the session instead of sending the remaining EOFs
-	Park       bool   `json:"park"`
-	V6         bool   `json:"v6"`
+	Conns      int   `json:"conns"`
+	Msgs       []msg `json:"msgs"`
+	Disconnect bool  `json:"disconnect"` // agent drops the session instead of sending the remaining EOFs
+	Park       bool  `json:"park"`
+	V6         bool  `json:"v6"`
 	// SameRemote: the virtual connections share one remote ip:port (a scanner with a fixed source port)
 	// and differ in the local port only
 	SameRemote bool `json:"same_remote,omitempty"`
 	// Shadow: a second agent session on the same listener announces a connection with the same address pair as
 	// this session's first one (two sensors behind different NATs hit by one scanner) and sends data of its own
 	Shadow bool `json:"shadow_session,omitempty"`
-	Kind       string `json:"kind"`
+	// Deadline: the connections go to a service that leaves a short write deadline behind after every write (and
+	// at the start); the deadline has passed when the end-of-stream messages (or the disconnect) arrive
+	Deadline bool   `json:"expired_write_deadline,omitempty"`
+	Kind     string `json:"kind"`
 }
 
 func interleavings(counts []int) [][]int {
@@ -278,6 +281,42 @@ func scenarios(tier string, seed int64) []scenario {
 		}
 		out = append(out, sc)
 	}
+	nd := 16
+	if tier == "thorough" {
+		nd = 120
+	}
+	for i := 0; i < nd; i++ {
+		r := core.NewRng(seed, "C16/deadline", i)
+		nc := r.Range(1, 4)
+		var per [][]msg
+		var order []int
+		for c := 0; c < nc; c++ {
+			s := []msg{{c, "hello", 0}}
+			for j := r.Range(0, 3); j > 0; j-- {
+				s = append(s, msg{c, "data", r.PickI([]int{1, 17, 1000, 4000})})
+			}
+			per = append(per, s)
+			for range s {
+				order = append(order, c)
+			}
+		}
+		for a := len(order) - 1; a > 0; a-- {
+			b := r.Intn(a + 1)
+			order[a], order[b] = order[b], order[a]
+		}
+		for c := 0; c < nc; c++ { // the EOFs come last, after the deadlines have passed
+			per[c] = append(per[c], msg{c, "eof", 0})
+			order = append(order, c)
+		}
+		sc := build(order, per, fmt.Sprintf("expired-write-deadline-%dconn", nc))
+		sc.Deadline = true
+		if i%4 == 3 {
+			sc.Disconnect = true
+			sc.Msgs = sc.Msgs[:len(sc.Msgs)-nc+r.Intn(nc)]
+			sc.Kind += "+disconnect"
+		}
+		out = append(out, sc)
+	}
 	np := 12
 	if tier == "thorough" {
 		np = 150
@@ -321,13 +360,13 @@ type connObs struct {
 }
 
 type scnObs struct {
-	Conns      []connObs `json:"conns"`
-	Foreign    []string  `json:"foreign,omitempty"` // frames tagged with addresses of no announced connection / wrong kind
-	UDPEcho    int       `json:"udp_echo"`
-	UDPSent    int       `json:"udp_sent"`
-	Parked     int64     `json:"parked"`
-	Err        string    `json:"err,omitempty"`
-	DoneAfterDisconnect bool `json:"done_after_disconnect"`
+	Conns               []connObs `json:"conns"`
+	Foreign             []string  `json:"foreign,omitempty"` // frames tagged with addresses of no announced connection / wrong kind
+	UDPEcho             int       `json:"udp_echo"`
+	UDPSent             int       `json:"udp_sent"`
+	Parked              int64     `json:"parked"`
+	Err                 string    `json:"err,omitempty"`
+	DoneAfterDisconnect bool      `json:"done_after_disconnect"`
 }
 
 var parkGate atomic.Value
@@ -346,6 +385,9 @@ func init() {
 // the remote one.
 func addrOfSc(sc scenario, k, c int, udp bool) (local, remote waddr) {
 	l, r := addrOf(k, c, sc.V6, udp)
+	if sc.Deadline && !udp {
+		l.Port = 8026
+	}
 	if sc.SameRemote && !udp && c < 70 {
 		l.Port = 8022 + c
 		r.Port = 30000
@@ -456,6 +498,7 @@ func runScenario(k int, sc scenario, listen string, key []byte) scnObs {
 	seq := make([]int, sc.Conns)
 	eofSent := make([]bool, sc.Conns)
 	helloSent := make([]bool, sc.Conns)
+	expired := false
 	for _, m := range sc.Msgs {
 		switch m.Kind {
 		case "hello", "dup-hello":
@@ -500,6 +543,10 @@ func runScenario(k int, sc scenario, listen string, key []byte) scnObs {
 			want[m.Conn] = append(want[m.Conn], pl...)
 			a.send(tRWTCP, encData(encAddr(encAddr(nil, l.Proto, l.IP, l.Port), r.Proto, r.IP, r.Port), pl))
 		case "eof":
+			if sc.Deadline && !expired {
+				expired = true
+				time.Sleep(15 * time.Millisecond) // the services' write deadlines (5 ms) pass
+			}
 			l, r := addrOfSc(sc, k, m.Conn, false)
 			a.send(tEOF, encAddr(encAddr(nil, l.Proto, l.IP, l.Port), r.Proto, r.IP, r.Port))
 			eofSent[m.Conn] = true
@@ -564,6 +611,9 @@ func runScenario(k int, sc scenario, listen string, key []byte) scnObs {
 		time.Sleep(2 * time.Millisecond)
 	}
 	if sc.Disconnect {
+		if sc.Deadline && !expired {
+			time.Sleep(15 * time.Millisecond)
+		}
 		c.Close()
 		// every connection of the session must now end
 		dl := time.Now().Add(5 * time.Second)
@@ -691,7 +741,7 @@ func (prop) Child(b core.Batch, o *core.Obs) {
 	}
 	port := freePort()
 	listen := fmt.Sprintf("127.0.0.1:%d", port)
-	cfg := fmt.Sprintf("[listener]\ntype=\"agent\"\nlisten=%q\n[channel.cap0]\ntype=\"lab-capture\"\nid=\"cap0\"\n[[filter]]\nchannel=[\"cap0\"]\n[service.echo]\ntype=\"lab-stub-plain\"\nname=\"echo\"\necho=true\n[[port]]\nports=[\"tcp/8022\",\"tcp/8023\",\"tcp/8024\",\"tcp/8025\"]\nservices=[\"echo\"]\n[[port]]\nport=\"udp/8053\"\nservices=[\"echo\"]\n", listen)
+	cfg := fmt.Sprintf("[listener]\ntype=\"agent\"\nlisten=%q\n[channel.cap0]\ntype=\"lab-capture\"\nid=\"cap0\"\n[[filter]]\nchannel=[\"cap0\"]\n[service.echo]\ntype=\"lab-stub-plain\"\nname=\"echo\"\necho=true\n[service.echod]\ntype=\"lab-stub-plain\"\nname=\"echod\"\necho=true\nwrite_deadline_ms=5\n[[port]]\nport=\"tcp/8026\"\nservices=[\"echod\"]\n[[port]]\nports=[\"tcp/8022\",\"tcp/8023\",\"tcp/8024\",\"tcp/8025\"]\nservices=[\"echo\"]\n[[port]]\nport=\"udp/8053\"\nservices=[\"echo\"]\n", listen)
 	srv, err := lab.StartWith(cfg, false)
 	if err != nil {
 		o.Emit(core.Rec{T: "starterr", S: err.Error()})
